@@ -204,8 +204,7 @@ def _validation_defs_ok(ctx: Ctx, f: FuncInfo, node, var='validation') -> tuple[
     return True, ''
 
 
-def rule_b(ctx: Ctx) -> None:
-    rule = 'C04.b'
+def rule_b(ctx: Ctx, rule: str = 'C04.b') -> None:
     n_rep = 0
     n_rec = 0
     lit_seen = set()
@@ -256,7 +255,7 @@ def rule_b(ctx: Ctx) -> None:
     ctx.floor(rule, 'recursive raw_decode/raw_encode call sites', n_rec, 40)
     for k, why in LITERAL_MODE_SITES.items():
         if k not in lit_seen:
-            ctx.note(f'C04.b: reviewed literal-mode site {k} no longer present')
+            ctx.note(f'{rule}: reviewed literal-mode site {k} no longer present')
     # raise_or_collect: strict raises before any append; append exactly under lax
     f = ctx.idx.method(VCTX, 'raise_or_collect')
     g = cfg_of(ctx, f)
@@ -286,7 +285,7 @@ def rule_b(ctx: Ctx) -> None:
                                 and text(r.ast.value.args[0]) == 'validation' for r in rets)
         w = gm.must_pass(gm.entry, [gm.exit], rets, kinds='nTF')
         ctx.ob(rule, f'{meth} ends in raise_or_collect(validation, error) on every path', fm.loc(), ok and w is None, '', key=f'{meth}|tail')
-    ctx.explain('C04.b: every error report and every recursive decode/encode call passes the function\'s validation '
+    ctx.explain(f'{rule}: every error report and every recursive decode/encode call passes the function\'s validation '
                 'parameter (reaching definitions), except 5 reviewed literal sites; raise_or_collect implements the modes.')
 
 
@@ -538,4 +537,47 @@ def rule_h(ctx: Ctx) -> None:
     mode_blind_reports(ctx, 'C04.h')
 
 
-RULES = [rule_a, rule_b, rule_c, rule_d, rule_e, rule_f, rule_g, rule_h]
+MODE_SWITCHES = {
+    # functions in which a test may distinguish validation == 'strict' from 'lax', and why that cannot change the sequence of errors
+    'xmlschema.validators.validation.ValidationContext.raise_or_collect': 'the reporter itself: strict raises the error, lax appends it',
+    'xmlschema.validators.validation.ValidationMixin.decode': 'shape of the return value: lax returns (data, errors)',
+    'xmlschema.validators.validation.ValidationMixin.encode': 'shape of the return value: lax returns (data, errors)',
+    'xmlschema.validators.schemas.XMLSchemaBase.decode': 'entry point: strict raises the first error yielded by iter_decode, lax collects them; shape of the return value',
+    'xmlschema.validators.schemas.XMLSchemaBase.encode': 'entry point: strict raises the first error yielded by iter_encode, lax collects them; shape of the return value',
+    'xmlschema.validators.xsdbase.XsdValidator.check_validator': 'precondition on the schema (built / valid), before any document is looked at',
+    'xmlschema.documents.XmlDocument.__init__': 'entry point: strict calls validate(), lax stores list(iter_errors())',
+}
+
+
+def rule_i(ctx: Ctx) -> None:
+    """Strict mode raises precisely the first error that lax mode collects: the walk over the document is the same in both modes, only the
+    reporter treats the error differently.  No test outside the reviewed switches may come out differently for validation == 'strict' and
+    validation == 'lax' (an early exit 'once the model is broken, in strict mode' makes strict raise a later-collected error first)."""
+    rule = 'C04.i'
+    from .wild import _mode_truth
+    n = 0
+    seen = set()
+    for f in ctx.idx.iter_functions():
+        if isinstance(f.node, ast.Lambda) or 'validation' not in f.params or f.module.name.startswith(('xmlschema.testing', 'xmlschema.extras', 'xmlschema.cli')):
+            continue
+        for x in ast.walk(f.node):
+            if not isinstance(x, (ast.If, ast.While, ast.IfExp)):
+                continue
+            a, b = _mode_truth(x.test, 'strict'), _mode_truth(x.test, 'lax')
+            if a == b:
+                continue
+            n += 1
+            ok = f.qualname in MODE_SWITCHES
+            seen.add(f.qualname)
+            ctx.ob(rule, f'{f.qualname.split(".", 1)[-1]}: `{text(x.test)[:60]}` does not make strict and lax mode diverge (reviewed switches only)', f.loc(x), ok,
+                   MODE_SWITCHES.get(f.qualname, '') if ok else f'the test is {a} for strict and {b} for lax: the two modes walk the document differently - e.g. leaving the loop over '
+                   'the children once the content model is broken makes strict raise the model error of the parent while lax lists the error inside the child first',
+                   key=f'{f.qualname}|mode-switch|{text(x.test)[:40]}', nontrivial=not ok)
+    ctx.floor(rule, 'strict/lax switches', n, 15)
+    stale = sorted(q for q in MODE_SWITCHES if q not in seen)
+    ctx.ob(rule, 'every reviewed switch still exists', 'xmlschema/validators/validation.py:1', not stale, f'no strict/lax test left in {stale}', key='mode-switch|table-current', nontrivial=False)
+    ctx.explain('C04.i: every if / while / conditional expression in a function with a `validation` parameter is folded for validation == \'strict\' and == \'lax\'; a test that '
+                'comes out differently must be in one of the reviewed functions (the reporter, the entry points that shape the return value).')
+
+
+RULES = [rule_a, rule_b, rule_c, rule_d, rule_e, rule_f, rule_g, rule_h, rule_i]
